@@ -403,6 +403,8 @@ def verdict_for(ctx, s, rows=None, cache=None):
     verdict = None
     if d:
         verdict = (True, '%s: %s' % d)
+    elif s['kind'] == 'call' and what.endswith('::unwrap') and 'try_into' in str(sym(fn, t['args'][0]))[:80]:
+        verdict = (False, 'D4: a size conversion (position/count -> u16/u8) panics when the program is too large')
     else:
         # bin: host I/O failures are not failures of an input text
         if s['fn'].startswith('bin::') and s['kind'] == 'call' and what.endswith('::unwrap'):
